@@ -384,7 +384,7 @@ def gen_attack(rng, i):
         line, meta = gen_convergence(rng, i, kind="atk")
         ops = line.split(" ")
         k = next(j for j, o in enumerate(ops) if o.startswith("gather,"))
-        ops.insert(k, "attacker,%d,%d" % (rng.choice([3, 7, 20, 50]), rng.choice([4095, 4095, 0x3fc, 0x4e0, 0x61c, 0x400, 0x800])))
+        ops.insert(k, "attacker,%d,%d" % (rng.choice([3, 7, 20, 50]), rng.choice([16383, 16383, 0x3fc, 0x4e0, 0x61c, 0x400, 0x800, 0x2000, 0x2404])))
         if rng.random() < 0.5 and not meta.get("nat"):
             # a STUN server that never answers keeps the discovery transactions of every host candidate pending for 2 s
             ops[k:k] = ["server,10.9.0.1,3478,silent", "stun,0,10.9.0.1,3478", "stun,1,10.9.0.1,3478"]
@@ -394,16 +394,25 @@ def gen_attack(rng, i):
     ips = (tuple("10.0.0.%d" % (k + 1) for k in range(na)), tuple("10.0.1.%d" % (k + 1) for k in range(nb)))
     ctl = rng.choice([(1, 0), (0, 1), (1, 1), (0, 0)])
     opts = tuple(rng.choice([0, OPT_REGULAR]) | (OPT_CONSENT if rng.random() < 0.3 else 0) for _ in (0, 1))
-    ops = two_agents(rng, 0, opts, ctl, ips, 1)
+    # every compatibility mode that authenticates checks with MESSAGE-INTEGRITY and FINGERPRINT: RFC 5245 (0), WLM2009 (3), OC2007R2 (5)
+    compat = rng.choice([0, 0, 3, 5])
+    ops = two_agents(rng, compat, opts, ctl, ips, 1)
     for b in ips[1]:
         for a in ips[0]:
             ops.append("hole,%s,%s,on" % (b, a))
-    ops.append("attacker,%d,%d" % (rng.choice([2, 5, 11]), rng.choice([8191, 8191, 0x7fc, 0x6ec, 0x4e0, 0x400, 0x1800, 0x1802])))
+    ops.append("attacker,%d,%d" % (rng.choice([2, 5, 11]), rng.choice([16383, 16383, 0x7fc, 0x6ec, 0x4e0, 0x400, 0x1800, 0x1802, 0x2000, 0x2404])))
     if rng.random() < 0.5:
         ops += ["server,10.9.0.1,3478,silent", "stun,0,10.9.0.1,3478"]
     ops += ["gather,0,1", "gather,1,1", "run,%d" % rng.choice([0, 10])] + signalling(rng, 1)
     ops += ["run,%d" % rng.choice([3000, 9000]), "digest", "send,0,1,1,100,7", "run,4000"] + final_queries(1)
-    return "iso%d %s" % (i, " ".join(ops)), {"kind": "atk-iso", "ncomp": 1, "ctl0": ctl[0], "ips0": ips[0]}
+    return "iso%d %s" % (i, " ".join(ops)), {"kind": "atk-iso", "ncomp": 1, "ctl0": ctl[0], "ips0": ips[0], "compat": compat}
+
+
+def _tok(f, prefix):
+    for w in f:
+        if w.startswith(prefix):
+            return w[len(prefix):]
+    return None
 
 
 def oracle_data_gated(evs, meta):
@@ -423,6 +432,7 @@ def oracle_data_gated(evs, meta):
     sent = set()
     auth = {}                       # agent -> sources admitted by an authenticated check, as that agent sees them
     spoofed = []                    # (t, src, dst, len) of spoofed-source plain data not yet delivered
+    honest_stun = []                # (t, src, dst, len) of the honest agents' own STUN messages
     for e in evs:
         if e.kind == "api" and e.f[1] == "send" and e.f[-1].startswith("=") and int(e.f[-1][1:]) > 0:
             sent.add((e.f[4], e.f[5]))
@@ -433,6 +443,7 @@ def oracle_data_gated(evs, meta):
             if me is not None and not e.f[1].startswith(ATK_NET):
                 auth.setdefault(me, set()).add(e.f[1])
         elif e.kind == "pkt" and "stun" in e.f and "c2" in e.f:
+            honest_stun.append((e.t, e.f[0], e.f[1], e.f[-1].split("=")[1] if e.f[-1].startswith("n=") else None, _tok(e.f, "h=")))
             src, dst, fate = e.f[0], e.f[1], e.f[2]
             if dst.startswith(ATK_NET) and "m1" in e.f:
                 return "agent answered a Binding request of the attacker (%s) with a success response: %s" % (dst, " ".join(e.f))
@@ -442,14 +453,24 @@ def oracle_data_gated(evs, meta):
             you = owner.get(dst.rsplit(":", 1)[0])
             if you is not None and fate in ("ok", "dup"):
                 auth.setdefault(you, set()).add(src)          # (is about to get) the honest peer's success response from src
-        elif e.kind == "atk" and e.f[0] == "data-spoofed":
-            spoofed.append((e.t, e.f[1], e.f[2], e.f[-1].split("=")[1]))
+        elif e.kind == "pkt" and "stun" in e.f and e.f[2] in ("ok", "dup", "ok-resp-lost"):
+            honest_stun.append((e.t, e.f[0], e.f[1], e.f[-1].split("=")[1] if e.f[-1].startswith("n=") else None, _tok(e.f, "h=")))
+        elif e.kind == "atk":
+            # any injection may end up as "data" at the receiver: plain media, or a forged STUN message that the receiver's STUN flavour does
+            # not even recognise as STUN (the attacker speaks RFC 5389; for an OC2007R2 agent its padded messages are just bytes)
+            spoofed.append((e.t, e.f[1], e.f[2], e.f[-1].split("=")[1] if e.f[-1].startswith(("len=", "n=")) else None, _tok(e.f, "h=")))
         elif e.kind == "rx":
             if (e.f[3], e.f[4]) in sent:
                 continue
-            hit = [x for x in spoofed if x[3] == e.f[3] and owner.get(x[2].rsplit(":", 1)[0]) == e.f[0] and e.t - x[0] <= 1]
+            hit = [x for x in spoofed if x[3] in (None, e.f[3]) and x[4] in (None, e.f[4]) and owner.get(x[2].rsplit(":", 1)[0]) == e.f[0] and e.t - x[0] <= 1]
             if hit and all(x[1] in auth.get(e.f[0], ()) for x in hit):
                 continue        # spoofed media from an address that had completed an authenticated check: outside the property
+            if not hit and any(x[3] == e.f[3] and x[4] in (None, e.f[4]) and owner.get(x[2].rsplit(":", 1)[0]) == e.f[0] and x[1] in auth.get(e.f[0], ()) and 0 <= e.t - x[0] <= 250
+                               for x in honest_stun):
+                # the honest peer's own STUN message handed to the application (OC2007R2 sends every check a second time in a legacy form
+                # that the receiving libnice agent does not recognise as STUN): ICE control delivered as data is C02's clause, not this one -
+                # its source had completed an authenticated check
+                continue
             return "agent %s received a %s-byte message (hash %s) that nobody sent%s" % (
                 e.f[0], e.f[3], e.f[4], " (injected from %s, which never completed an authenticated check with it)" % hit[0][1] if hit else "")
     return None
@@ -958,8 +979,9 @@ def gen_api_program(rng, i):
     ncomp = rng.choice([1, 2])
     ips = (("10.0.0.1",), ("10.0.1.1",)) if rng.random() < 0.7 else (("10.0.0.1", "10.0.0.2"), ("10.0.1.1",))
     ops = ["seed,%d" % rng.randrange(1, 1 << 30)]
+    compat = rng.choice([0, 0, 0, 0, 1, 2, 3, 4, 5])      # NiceCompatibility: RFC5245, GOOGLE, MSN, WLM2009, OC2007, OC2007R2 (both sides alike)
     for k in (0, 1):
-        ops.append("agent,%d,0,%d,%d,%s" % (k, rng.randrange(2), opts[k], ",".join(ips[k])))
+        ops.append("agent,%d,%d,%d,%d,%s" % (k, compat, rng.randrange(2), opts[k], ",".join(ips[k])))
     ops.append("net,%s,%s,1,%d,3" % (rng.choice([0, 0, 0.2]), rng.choice([0, 0.1]), rng.choice([1, 30])))
     servers = rng.random() < 0.4
     if servers:
